@@ -14,8 +14,13 @@ def parts_of(loc):
 
 
 def denote(loc, n):
+    """a zero-length part (a between-base site such as GenBank 4^5) denotes the *boundary* before position a:
+    it is listed as (("gap", a mod n), strand) so that it moves with its flanking nucleotides"""
     out = []
     for a, b, strand in parts_of(loc):
+        if a == b and n:
+            out.append((("gap", a % n), strand))
+            continue
         ps = list(range(a, b))
         if strand == -1:
             ps = ps[::-1]
@@ -28,10 +33,10 @@ def same_denotation(d0, d1, n, stranded=True):
     once has no distinguished start, so cyclic shifts are accepted for it.
     Unstranded features are compared as position multisets."""
     if not stranded:
-        return sorted(p for p, _ in d0) == sorted(p for p, _ in d1)
+        return sorted(str(p) for p, _ in d0) == sorted(str(p) for p, _ in d1)
     if d0 == d1:
         return True
-    if len(d0) == n == len(d1) and sorted(p for p, _ in d0) == list(range(n)):
+    if len(d0) == n == len(d1) and all(isinstance(p, int) for p, _ in d0) and sorted(p for p, _ in d0) == list(range(n)):
         if [s for _, s in d0] != [s for _, s in d1]:
             return False
         s0 = [p for p, _ in d0]
